@@ -9,6 +9,6 @@ mkdir -p coq/Generated
 ./build/genconsts > build/Consts.v.new
 cmp -s build/Consts.v.new coq/Generated/Consts.v || cp build/Consts.v.new coq/Generated/Consts.v
 bash coq/gen.sh
-(cd coq && timeout 7000 make -j16 > ../build/coq-build.log 2>&1) || { tail -40 build/coq-build.log; exit 1; }
+(cd coq && timeout 3000 make -j$(bash ./jobs.sh) COQC='timeout 1500 coqc' > ../build/coq-build.log 2>&1) || { tail -40 build/coq-build.log; exit 1; }
 bash ocaml/build.sh || echo 'WARNING: some model drivers failed to build'
 echo setup done
